@@ -25,6 +25,9 @@ import (
 var verifDir = "/verif"
 var repoDir = "/repo"
 
+// delay bound of the thorough tier per property (default 1)
+var thoroughDelay = map[string]int{"C10": 2, "C11": 2, "C12": 2, "C13": 2, "C14": 2, "C15": 2, "C16": 2, "C20": 2}
+
 func main() {
 	if d := os.Getenv("VERIF_DIR"); d != "" {
 		verifDir = d
@@ -174,9 +177,27 @@ func cmdRun(args []string) int {
 			ec.MaxPaths = *maxPaths
 		}
 		ec.Opt = gosym.Options{MaxSteps: 2000000, LoopBound: 64, DelayBound: 1, Seed: seed, Tier: tierN, CrossPct: 2 + 98*tierN}
+		if tierN == 1 {
+			// thorough: a larger delay bound where the whole harness set stays within minutes (measured, DESIGN.md §4);
+			// the others keep bound 1 on larger configurations, their "deep" harnesses set 2-3 on small ones
+			if d, ok := thoroughDelay[*prop]; ok {
+				ec.Opt.DelayBound = d
+			}
+		}
 		ec.Opt.NoPOR = os.Getenv("VF_NOPOR") == "1"
 		if d, err := strconv.Atoi(os.Getenv("VF_DELAY")); err == nil {
 			ec.Opt.DelayBound = d // development override
+		}
+		ev.Bounds = map[string]interface{}{
+			"delay_bound_default":          ec.Opt.DelayBound,
+			"delay_bound_note":             "deviations from the round-robin base schedule per run; harnesses named *Deep / *Lemma* / PMapSizes set their own (3, 2 or 0) with vfSetDelayBound",
+			"scheduling_granularity":       "one source statement (points inserted by the overlay instrumenter); partial-order reduction of invisible segments: " + map[bool]string{true: "off", false: "on"}[ec.Opt.NoPOR],
+			"loop_unwinding_per_block":     ec.Opt.LoopBound,
+			"path_bound_per_harness":       ec.MaxPaths,
+			"ssa_step_bound_per_path":      ec.Opt.MaxSteps,
+			"solver_timeout_ms":            ec.TimeoutMs,
+			"sizes":                        "stated in each harness header comment and DESIGN.md §3/§4 (vfRange / vfChoose bounds, scaled by the tier)",
+			"cvc5_cross_check_pct_of_unsat": ec.Opt.CrossPct,
 		}
 		sums, st := gosym.Explore(p, entries, ec)
 		ev.addSolver(st)
@@ -316,6 +337,7 @@ type evidence struct {
 	ForkKinds   map[string]int
 	Cross       map[string]int
 	BySolver    int
+	Bounds      map[string]interface{}
 	PerHarness  []map[string]interface{}
 	Samples     []interface{}
 	Problems    []string
@@ -435,6 +457,7 @@ func (e *evidence) write(path string) error {
 		"paths_by_status":               e.StatusCount,
 		"fork_decisions_by_kind":        e.ForkKinds,
 		"solver":                        map[string]interface{}{"name": "z3 4.8.12 (incremental, -in)", "queries": e.Queries, "sat": e.QSat, "unsat": e.QUnsat, "unknown": e.QUnknown, "errors": e.QErrors, "solver_time_s": round3(e.SolverS)},
+		"bounds":                        e.Bounds,
 		"obligations_discharged":        e.Discharged,
 		"obligations_discharged_how":    map[string]interface{}{"by_solver_unsat_verdict": e.BySolver, "reduced_to_true_by_term_rewriting_during_symbolic_execution": e.Discharged - e.BySolver, "note": "an obligation over symbolic values that the hash-consing simplifier reduces to true (e.g. the returned term IS the input term) holds for all values without a query; feasibility queries for assumptions and branches are counted under solver.sat"},
 		"cross_checked_with_cvc5":       e.Cross,
